@@ -15,20 +15,34 @@ Definition wf_upstream (cap : N) (b : str) : bool :=
   | None => false
   end.
 
+(* a header that is just a status in 10..69 ("59" CRLF): the current Gemini grammar makes SP and the message optional for
+   failure statuses and older texts require the space - a grey zone: the proxy may answer 43 or relay status and (empty)
+   meta, which it necessarily writes as "59 " CRLF (and, for 2x, the body) *)
+Definition status_only (h : str) : bool :=
+  match h with
+  | [d1; d2] => is_digit d1 && is_digit d2 && (let v := (d1 - 48) * 10 + (d2 - 48) in (10 <=? v) && (v <=? 69))
+  | _ => false
+  end.
+Definition canonical_status_only (cap : N) (h body : str) (downstream : str) : bool :=
+  if is_2x h then (N.of_nat (length body) <=? cap) && eqb downstream (h ++ [32; 13; 10] ++ body)
+  else eqb downstream (h ++ [32; 13; 10]).
+
 (* the monitor: what the downstream client received *)
 Definition ok (cap : N) (u : upstream) (downstream : str) (closed : bool) : bool :=
   closed && response_shape downstream &&
   match u with
   | UStream b None => if wf_upstream cap b then eqb downstream b
                       else match break_crlf b with
-                           | Some (h, _) => if header_ok h && negb (is_2x h) then true   (* non-2x with trailing bytes: header relayed *)
-                                            else prefixb (lit "43 ") downstream
+                           | Some (h, body) =>
+                               if header_ok h && negb (is_2x h) then true   (* non-2x with trailing bytes: header relayed *)
+                               else if status_only h then prefixb (lit "43 ") downstream || canonical_status_only cap h body downstream
+                               else prefixb (lit "43 ") downstream
                            | None => prefixb (lit "43 ") downstream
                            end
   | UStream b (Some _) =>
       (* reset: 43 unless a complete non-2x header had already been received *)
       match break_crlf b with
-      | Some (h, _) => if header_ok h && negb (is_2x h) then true else prefixb (lit "43 ") downstream
+      | Some (h, _) => if (header_ok h || status_only h) && negb (is_2x h) then true else prefixb (lit "43 ") downstream
       | None => prefixb (lit "43 ") downstream
       end
   | _ => prefixb (lit "43 ") downstream
